@@ -169,6 +169,36 @@ func helperCases() []hcase {
 				}
 				return [][]float64{o}
 			}},
+		// zips whose longer inputs come from ONE upstream Duplicate: draining them must not depend on the order
+		{name: "Operate3(x, dup0, dup1)", arity: 2, params: []int{0, 1, 2}, consumes: true,
+			run: func(in []fch, p int) []fch {
+				d := helper.Duplicate(in[1], 2)
+				args := []fch{d[0], d[1]}
+				args = append(args[:p], append([]fch{in[0]}, args[p:]...)...)
+				return []fch{helper.Operate3(args[0], args[1], args[2], func(a, b, c float64) float64 { return a*100 + b*10 + c })}
+			},
+			model: func(in [][]float64, p int) [][]float64 {
+				cols := [][]float64{in[1], in[1]}
+				cols = append(cols[:p], append([][]float64{in[0]}, cols[p:]...)...)
+				n := min(len(cols[0]), len(cols[1]), len(cols[2]))
+				o := make([]float64, n)
+				for i := range o {
+					o[i] = cols[0][i]*100 + cols[1][i]*10 + cols[2][i]
+				}
+				return [][]float64{o}
+			}},
+		{name: "Operate(Skip(dup0), dup1)", arity: 1, params: []int{0, 1, 2, 3}, consumes: true,
+			run: func(in []fch, p int) []fch {
+				d := helper.Duplicate(in[0], 2)
+				return []fch{helper.Operate(helper.Skip(d[0], p), helper.Buffered(d[1], p), func(a, b float64) float64 { return a*10 + b })}
+			},
+			model: func(in [][]float64, p int) [][]float64 {
+				o := []float64{}
+				for i := p; i < len(in[0]); i++ {
+					o = append(o, in[0][i]*10+in[0][i-p])
+				}
+				return [][]float64{o}
+			}},
 		{name: "Pipe", arity: 1, params: []int{0, 1, 3}, consumes: true,
 			run: func(in []fch, p int) []fch {
 				t := make(chan float64, p)
